@@ -22,6 +22,15 @@ impl Payload for Doc {
     }
 }
 fn text(letter: char, tok: u32, lines: usize, k: usize) -> String {
+    if tok % 7 == 6 {
+        // a payload that is itself a small tree (a chain of `lines` nodes) drawn by debug_pretty_print of ANOTHER arena:
+        // printing re-enters the printer while the outer printer is in the middle of a node
+        return match k {
+            1 => format!("{}{}n", letter, tok),
+            2 => format!("`-- {}{}n.2", letter, tok),
+            _ => format!("    `-- {}{}n.3", letter, tok),
+        };
+    }
     // a 3-line payload has an empty interior line
     if lines == 3 && k == 2 {
         String::new()
@@ -97,6 +106,15 @@ impl Doc {
     /// the rendering reaches the formatter in different fragmentations: as one string, line by line with
     /// separate newlines, or character by character
     fn emit(&self, f: &mut fmt::Formatter<'_>, letter: char) -> fmt::Result {
+        if self.tok % 7 == 6 && ODD.load(std::sync::atomic::Ordering::Relaxed) == 0 {
+            let mut inner: indextree::Arena<String> = indextree::Arena::new();
+            let root = inner.new_node(format!("{}{}n", letter, self.tok));
+            let mut last = root;
+            for k in 2..=self.lines {
+                last = last.append_value(format!("{}{}n.{}", letter, self.tok, k), &mut inner);
+            }
+            return write!(f, "{}", root.debug_pretty_print(&inner));
+        }
         let txt = self.render(letter);
         match self.tok % 4 {
             0 | 1 => f.write_str(&txt),
